@@ -234,6 +234,7 @@ class Path:
         self.conds: t.List[t.Tuple[tuple, bool, ast.AST, FuncInfo]] = []
         self.outcome: t.Tuple = ("fall",)
         self.truncated = False
+        self.swallowed = None  # exception type that a wrapping @log_exceptions turned into `return None`
         self.env: t.Dict[str, tuple] = {}
         self.heap: t.Dict = {}
 
@@ -800,6 +801,7 @@ class Engine:
               recv_term=None, depth=0, env0=None, known0=None) -> t.List[Path]:
         """enumerate the paths of function fi. recv = class qual of the receiver (for methods)"""
         self._budget = 0
+        self._modelled_decorators(fi)
         st = _State()
         if env0:
             st.env.update(env0)
@@ -821,6 +823,11 @@ class Engine:
                 p.outcome = ("return", val)
             elif kind == "raise":
                 p.outcome = ("raise", val[0], val[1])
+                if fi.log_exceptions and depth == 0 and self.exc.is_sub(val[0], "Exception") and getattr(self.policy, "decorators_apply", True):
+                    # the function is wrapped by @log_exceptions: what its callers (and awaiters) see of an exception
+                    # raised in the body is a normal return of None
+                    p.outcome = ("return", NONE)
+                    p.swallowed = val[0]
             else:
                 p.outcome = (kind,)
             res.append(p)
@@ -2242,18 +2249,34 @@ class Engine:
         gens = []
         n0 = len(s.events)
         first_it = None
-        if len(node.generators) == 1 and not node.generators[0].is_async and not node.generators[0].ifs and kind != "dict":
-            # a comprehension over a display of known elements is the display of its results
+        at_import = fi.name == "<module>"
+        if len(node.generators) == 1 and not node.generators[0].is_async and (not node.generators[0].ifs or at_import) and kind != "dict":
+            # a comprehension over a display of known elements is the display of its results (at import time also with
+            # filters, when they fold to constants: a table computed from an enum / a constant tuple)
             g = node.generators[0]
             first_it = self._eval(g.iter, s, fi, depth, ch)
             elems = self._iter_elems(first_it)
-            if elems is not None and len(elems) <= 8:
+            if elems is None and at_import and first_it[0] == "cls":
+                em = enum_members(self.prog, first_it[1])
+                if em:
+                    elems = [const(v) for v in em.values()]
+            if elems is not None and len(elems) <= (64 if at_import else 8):
                 out = []
                 outer_iter = s.env.get("$iter")
+                decided = True
                 for i_, el in enumerate(elems):
                     s.env["$iter"] = (outer_iter or ()) + ((node.lineno, node.col_offset, i_),)  # evaluation identity per element
                     self._assign(g.target, el, s, fi, depth, ch)
-                    out.append(self._eval(node.elt, s, fi, depth, ch))
+                    keep = True
+                    for c_ in g.ifs:
+                        tv = truthy(self._eval(c_, s, fi, depth, ch))
+                        if tv is None:
+                            decided = False
+                        keep = keep and bool(tv)
+                    if keep:
+                        out.append(self._eval(node.elt, s, fi, depth, ch))
+                if not decided:
+                    raise AnalysisError(f"{fi.qual}: a table computed at import time has a filter that does not fold to a constant")
                 s.env.clear()
                 s.env.update(saved)
                 return ({"list": "list", "set": "set", "gen": "tuple"}[kind], tuple(out))
@@ -2676,7 +2699,18 @@ class Engine:
         return _strip_at(callee.qual) not in baseline_functions() and callee.kind != "property" \
             and not _has_yield(callee)
 
+    _KNOWN_DECORATORS = frozenset({"staticmethod", "classmethod", "property", "cached_property", "abstractmethod", "log_exceptions",
+                                   "contextmanager", "wraps", "overload", "final", "override", "lru_cache", "cache", "setter", "deleter", "getter"})
+
+    def _modelled_decorators(self, fi: FuncInfo):
+        """a decorator replaces the function by whatever it returns: the body that is read here describes the call only for
+        decorators whose effect is modelled"""
+        for d in getattr(fi, "decorators", ()):
+            if d.split(".")[-1] not in self._KNOWN_DECORATORS:
+                raise AnalysisError(f"{fi.qual}: the effect of decorator @{d} is not modelled (what a call of {fi.name} does is decided there)")
+
     def _inline(self, callee: FuncInfo, recv, rc, args, kwargs, e: Event, node, s: _State, fi, depth, ch):
+        self._modelled_decorators(callee)
         e.inlined = True
         if self._serves_caller(callee, e):
             # the call of an extracted helper is not an action of its own: rules see the helper's body instead
